@@ -239,8 +239,24 @@ package saml
 //@ axiom logout_response_read (b []byte, el *etree.Element, r LogoutResponse):
 //@    SerialisedFrom(b, el) && LogoutResponseDecodedFrom(b, r) ==> LogoutResponseReadFrom(el, r)
 //@ -- proved from the body: the bytes decoded into v are the serialisation of a copy of el, of nothing else
+//@ -- encoding/xml MERGES into what the target already holds (slices are appended to, non-nil pointers are reused): a message is
+//@ -- decoded only into a target that holds nothing yet - not into a value an earlier element of the same response, or an
+//@ -- earlier request, was decoded into
+//@ go func targetHoldsNothing(v interface{}) bool {
+//@    switch x := v.(type) {
+//@    case *Assertion: return x != nil && x.ID == "" && x.Issuer.Value == "" && x.Signature == nil && x.Subject == nil && x.Conditions == nil &&
+//@       len(x.AuthnStatements) == 0 && len(x.AttributeStatements) == 0
+//@    case *Response: return x != nil && x.ID == "" && x.InResponseTo == "" && x.Destination == "" && x.Issuer == nil && x.Signature == nil &&
+//@       x.EncryptedAssertion == nil && x.Assertion == nil && x.Status.StatusCode.Value == ""
+//@    case *ArtifactResponse: return x != nil && x.ID == "" && x.InResponseTo == "" && x.Issuer == nil && x.Signature == nil &&
+//@       x.Status.StatusCode.Value == "" && x.Response.ID == "" && x.Response.Assertion == nil && x.Response.EncryptedAssertion == nil
+//@    case *LogoutResponse: return x != nil && x.ID == "" && x.InResponseTo == "" && x.Destination == "" && x.Issuer == nil && x.Signature == nil &&
+//@       x.Status.StatusCode.Value == ""
+//@    }
+//@    return true }
 //@ contract unmarshalElement
 //@ requires el: el != nil
+//@ requires target_holds_nothing: targetHoldsNothing(v)
 //@ ensures[C01,C18] source: err == nil ==> valueReadFrom(v, el)
 
 //@ -- ------------------------------------------------------------------------------------------
